@@ -777,7 +777,8 @@ func (x *Exec) conv(tdst, tsrc types.Type, v Value) Value {
 		if ws, ss, ok2 := intInfo(tsrc); ok2 {
 			n, isC := v.(uint64)
 			if !isC {
-				x.unsupported("float conversion of a symbolic integer")
+				// an opaque float: may be passed around (metrics calls) but any use of it is an engine error
+				return opaqueFloat{}
 			}
 			if ss {
 				f = float64(sext64(n, ws))
